@@ -558,6 +558,11 @@ def report_rejects(chk, r, sig_of, describe=None, tool_error_if=None):
             d = json.loads(diag) if isinstance(diag, str) else diag
         except Exception:
             d = {"raw": diag}
+        if isinstance(ev, dict) and ev.get("ev") == "UncaughtLibraryPanic":
+            # the library panicked in a call the driver had not wrapped individually: still data, not a harness crash
+            chk.violation("library panic " + str(ev.get("panic"))[:120], "the library panicked while the %s driver was exercising it: %s" % (ev.get("family"), ev.get("panic")),
+                          {"session": rj["session"], "rejected_index": rj["index_in_session"], "panic": ev.get("panic")})
+            continue
         if tool_error_if and tool_error_if(ev, d):
             raise ToolError("harness precondition broken (not a verdict): %s / %s" % (json.dumps(_shorten(ev))[:1500], d))
         sig = sig_of(ev, d)
